@@ -77,6 +77,25 @@ func Twin(a, b func()) {
 func MonitorShared() int       { return 0 }
 func MonitorGlobalWrites() int { return 0 }
 
+// TempDir / WriteFile: a scratch directory. Under symgo the files live in a
+// virtual file system that os.ReadFile and filepath.Glob consult (contents may
+// be symbolic); natively they are real files.
+func TempDir() string {
+	d, err := os.MkdirTemp("", "vrt-")
+	if err != nil {
+		panic(err)
+	}
+	return d
+}
+
+func WriteFile(name string, data []byte) {
+	if err := os.WriteFile(name, data, 0644); err != nil {
+		panic(err)
+	}
+}
+
+func RemoveAll(dir string) { os.RemoveAll(dir) }
+
 // MapOrder(1): from now on every range over a built-in map iterates in an
 // arbitrary (solver-chosen) order; MapOrder(0): insertion order. Natively a
 // no-op (Go picks its own order).
@@ -230,6 +249,20 @@ func init() {
 			}
 			return intRet(n)
 		},
+		"TempDir": func(in *Interp, fn *ssa.Function, a []Value) Value { return "/vfs" },
+		"WriteFile": func(in *Interp, fn *ssa.Function, a []Value) Value {
+			if in.vfs == nil {
+				in.vfs = map[string]Slice{}
+			}
+			name := argStr(in, a[0])
+			src := a[1].(Slice)
+			cp := make([]Value, len(src.A))
+			copy(cp, src.A)
+			in.vfs[name] = Slice{A: cp}
+			in.vfsOrder = append(in.vfsOrder, name)
+			return nil
+		},
+		"RemoveAll": func(in *Interp, fn *ssa.Function, a []Value) Value { return nil },
 		"MapOrder": func(in *Interp, fn *ssa.Function, a []Value) Value {
 			in.mapOrderMode = int(a[0].(Int).C)
 			return nil
